@@ -318,6 +318,8 @@ struct Case {
     trivial: Vec<Vec<(E, &'static str)>>,
     /// which predicates are join conditions (tagged by class: equijoin / thetajoin)
     is_cond: Vec<bool>,
+    /// set when the mechanism was measurably not exercised (relation `index`: the plan does not use an index)
+    vacuous: bool,
     /// the select list and its class ("star" / "cols" / "" = fixed by the relation)
     items: Sel,
     build: Box<dyn Fn(&[Option<E>], &[Item]) -> Pair>,
@@ -550,6 +552,7 @@ fn partition_case(relation: &str, sh: Shape, scope: &[ScopeCol], items: Sel, p: 
         is_cond: vec![false, true],
         trivial: vec![trivial_true(scope), trivial_cond(&sh)],
         items,
+        vacuous: false,
         build: Box::new(move |ps, items| {
             let p = ps[0].clone().unwrap();
             let c = ps[1].as_ref();
@@ -594,6 +597,7 @@ fn commute_case(relation: &str, sh: Shape, items: Sel, p: E, cond: Option<E>, in
         is_cond: vec![false, true],
         trivial: vec![vec![], trivial_cond(&sh)],
         items,
+        vacuous: false,
         build: Box::new(move |ps, items| {
             let p = ps[0].clone().unwrap();
             let c = ps[1].clone();
@@ -668,6 +672,7 @@ fn rel_reorder(rng: &mut Rng, specs: &[TableSpec]) -> Case {
             is_cond: vec![false, true],
             trivial: vec![trivial_true(&scope), trivial_cond(&sh)],
             items: Sel::default(),
+            vacuous: false,
             build: Box::new(move |ps, _| {
                 let l: Vec<Item> = exprs.iter().cloned().map(item).collect();
                 let r: Vec<Item> = perm.iter().map(|k| item(exprs[*k].clone())).collect();
@@ -697,6 +702,7 @@ fn rel_reorder(rng: &mut Rng, specs: &[TableSpec]) -> Case {
             is_cond: vec![false, true],
             trivial: vec![trivial_true(&scope), trivial_cond(&sh)],
             items,
+            vacuous: false,
             build: Box::new(move |ps, items| Pair::two(render(&sh, items, ps[1].as_ref(), ps[0].clone()), render(&sh2, items, ps[1].as_ref(), ps[0].clone()))),
         };
     }
@@ -721,6 +727,7 @@ fn rel_reorder(rng: &mut Rng, specs: &[TableSpec]) -> Case {
         is_cond: vec![false, true, true],
         trivial: vec![trivial_true(&scope), t1, t2],
         items,
+        vacuous: false,
         build: Box::new(move |ps, items| {
             let mk = |order: [usize; 2]| -> String {
                 let conds = [ps[1].clone().unwrap(), ps[2].clone().unwrap()];
@@ -751,6 +758,7 @@ fn rel_star_vs_cols(rng: &mut Rng, specs: &[TableSpec]) -> Case {
         is_cond: vec![false, true],
         trivial: vec![trivial_true(&scope), trivial_cond(&sh)],
         items: Sel::default(),
+        vacuous: false,
         build: Box::new(move |ps, _| {
             let mut pr = Pair::two(render(&sh, &[Item::Star], ps[1].as_ref(), ps[0].clone()), render(&sh, &all, ps[1].as_ref(), ps[0].clone()));
             pr.sides = Some(("star_form_fewer_rows", "cols_form_fewer_rows"));
@@ -771,6 +779,7 @@ fn add_true_case(relation_prefix: &str, variant: &str, sh: Shape, scope: &[Scope
         is_cond: vec![false, true],
         trivial: vec![trivial_true(scope), trivial_cond(&sh)],
         items,
+        vacuous: false,
         build: Box::new(move |ps, items| {
             let c = ps[1].as_ref();
             let one = || bin(BinOp::Eq, int(1), int(1));
@@ -836,6 +845,7 @@ fn rel_on_vs_where(rng: &mut Rng, specs: &[TableSpec]) -> Case {
         is_cond: vec![false, true],
         trivial: vec![trivial_true(&scope), trivial_cond(&sh)],
         items,
+        vacuous: false,
         build: Box::new(move |ps, items| {
             let p = ps[0].clone().unwrap();
             let c = ps[1].clone().unwrap();
@@ -883,6 +893,7 @@ fn rel_derived(rng: &mut Rng, specs: &[TableSpec]) -> Case {
         is_cond: vec![false],
         trivial: vec![trivial_true(&scope)],
         items,
+        vacuous: false,
         build: Box::new(move |ps, items| {
             let p = ps[0].clone().unwrap();
             let mk = |f: usize| match f {
@@ -928,27 +939,27 @@ fn rel_index_query(rng: &mut Rng, specs: &[TableSpec], ti: usize, c: &ScopeCol, 
         (Shape::Table(spec.name.clone()), scope_of(spec, None), E::Col { tbl: None, name: c.name.clone() })
     };
     // atom on the indexed column
-    let k = rng.below(10);
+    // the planner uses a secondary index only for an equality that is the predicate or its first conjunct,
+    // so equality atoms dominate; the other forms check that an unused index changes nothing either
+    let k = rng.below(14);
     let atom = match k {
-        0..=3 => {
-            let op = if rng.chance(2, 3) { BinOp::Eq } else { cmp_op(rng) };
-            bin(op, ccol.clone(), cv(rng))
-        }
-        4 => {
+        0..=5 => bin(BinOp::Eq, ccol.clone(), cv(rng)),
+        6..=7 => bin(BinOp::Eq, cv(rng), ccol.clone()),
+        8 => {
             let op = cmp_op(rng);
             bin(op, cv(rng), ccol.clone())
         }
-        5 => {
+        9 => {
             let n = rng.usize(1, 3);
             let l: Vec<E> = (0..n).map(|_| cv(rng)).collect();
             E::InList(Box::new(ccol.clone()), l, rng.chance(1, 4))
         }
-        6 => {
+        10 => {
             let (lo, hi) = (cv(rng), cv(rng));
             E::Between(Box::new(ccol.clone()), Box::new(lo), Box::new(hi), rng.chance(1, 4))
         }
-        7 => E::IsNull(Box::new(ccol.clone()), rng.chance(1, 2)),
-        8 if c.ty == Ty::Text => E::Like(Box::new(ccol.clone()), Box::new(E::Lit(V::Text(rng.pick(&["a%", "ab%", "%b", "a_c", "%"]).to_string()))), false),
+        11 => E::IsNull(Box::new(ccol.clone()), rng.chance(1, 2)),
+        12 if c.ty == Ty::Text => E::Like(Box::new(ccol.clone()), Box::new(E::Lit(V::Text(rng.pick(&["a%", "ab%", "%b", "a_c", "%"]).to_string()))), false),
         _ => {
             let op = cmp_op(rng);
             bin(op, ccol.clone(), cv(rng))
@@ -958,7 +969,7 @@ fn rel_index_query(rng: &mut Rng, specs: &[TableSpec], ti: usize, c: &ScopeCol, 
         0..=3 => atom,
         4..=6 => {
             let q = gen_pred(rng, &scope, 1, &o);
-            if rng.chance(1, 2) {
+            if rng.chance(3, 4) {
                 and(atom, q)
             } else {
                 and(q, atom)
@@ -1008,6 +1019,7 @@ fn rel_index_query(rng: &mut Rng, specs: &[TableSpec], ti: usize, c: &ScopeCol, 
         is_cond: vec![false, true],
         trivial: vec![vec![], vec![]],
         items,
+        vacuous: false,
         build: Box::new(move |ps, items| {
             let q = render(&sh, items, ps[1].as_ref(), ps[0].clone());
             Pair { left: vec![q.clone()], right: vec![q], perm: None, left_plain: true, sides: Some(("indexed_gains_rows", "indexed_loses_rows")) }
@@ -1184,6 +1196,10 @@ fn rel_dialect(rng: &mut Rng, w: &mut World, ctx: &mut Ctx) -> Option<Case> {
 struct Stats {
     per_relation: BTreeMap<String, BTreeMap<String, u64>>,
     sigs: BTreeMap<String, u64>,
+    /// access paths (from EXPLAIN) of every 8th pair that held
+    held_paths: BTreeMap<String, u64>,
+    /// access paths of the minimal pairs that disagreed
+    failed_paths: BTreeMap<String, u64>,
 }
 
 impl Stats {
@@ -1215,12 +1231,16 @@ fn run_case(ctx: &mut Ctx, w: &mut World, sc: &Scratch, st: &mut Stats, case: Ca
     match v {
         Verdict::Held { left_sizes, right_sizes, width } => {
             st.bump(&rel, "held");
+            if ctx.evaluations % 8 == 0 {
+                let p = pair_paths(w, sc, &pair);
+                *st.held_paths.entry(p).or_insert(0) += 1;
+            }
             let total: usize = left_sizes.iter().sum();
             // the mechanism was exercised: the two formulations differ as texts (or run with/without the index), rows with
             // columns came back, and (partition) the predicate splits the rows into at least two non-empty parts
             let differ = pair.texts_differ() || pair.left_plain;
             let split = !rel.ends_with("partition") || left_sizes.iter().filter(|n| **n > 0).count() >= 2;
-            if differ && total > 0 && width > 0 && split {
+            if differ && total > 0 && width > 0 && split && !case.vacuous {
                 st.bump(&rel, "held_nontrivial");
                 ctx.nontrivial(fnv(format!("{:?}{:?}{}", pair.left, pair.right, w.dbi).as_bytes()));
                 if ctx.samples.iter().all(|s| s["relation"] != json!(case.relation)) {
@@ -1322,6 +1342,7 @@ fn run_case(ctx: &mut Ctx, w: &mut World, sc: &Scratch, st: &mut Stats, case: Ca
                 }
             }
             let paths = pair_paths(w, sc, &min_pair);
+            *st.failed_paths.entry(paths.clone()).or_insert(0) += 1;
             // does the disagreement need the secondary index? (same minimal pair on the index-free twin)
             let mut needs_index = false;
             if !w.index_sql.is_empty() && !min_pair.left_plain && reproduced {
@@ -1435,9 +1456,13 @@ fn index_phase(ctx: &mut Ctx, rng: &mut Rng, w: &mut World, sc: &Scratch, st: &m
         }
     }
     // re-run on the same database
-    for (case, before) in pending {
+    for (mut case, before) in pending {
         let pair = (case.build)(&case.preds, &case.items.items);
         let after = run_side(&mut w.db, &pair.right);
+        // measured: does the plan of the re-run actually use an index?
+        let uses_index = w.db.explain(&pair.right[0]).map(|p| p.contains("IndexScan") || p.contains("IndexNestedLoopJoin")).unwrap_or(false);
+        st.bump("index", if uses_index { "plan_uses_an_index" } else { "plan_does_not_use_an_index" });
+        case.vacuous = !uses_index;
         let same = match (&before, &after) {
             (Ok((b, _)), Ok((a, _))) => bag_diff(b, a).is_none(),
             (Err(_), Err(_)) => true,
@@ -1561,7 +1586,7 @@ pub fn run(a: &Args) -> i32 {
     } else if quick {
         (40, 60, 8, 48.0)
     } else {
-        (1000, 60, 8, 540.0)
+        (3000, 60, 8, 540.0)
     };
     let scratch = Scratch::new("c19");
     let mut st = Stats::default();
@@ -1579,6 +1604,8 @@ pub fn run(a: &Args) -> i32 {
     ctx.count("databases", dbs_done);
     ctx.extra.insert("per_relation".into(), json!(st.per_relation));
     ctx.extra.insert("violation_signatures".into(), json!(st.sigs));
+    ctx.extra.insert("access_paths_of_held_pairs_sampled_1_in_8".into(), json!(st.held_paths));
+    ctx.extra.insert("access_paths_of_disagreeing_minimal_pairs".into(), json!(st.failed_paths));
     // a relation that never produced a judged, non-trivial pair is inconclusive for that relation
     for r in ["partition", "commute", "reorder", "star_vs_cols", "add_true", "on_vs_where", "derived", "index", "dialect_partition", "dialect_commute", "dialect_add_true"] {
         let m = st.per_relation.get(r);
